@@ -8,6 +8,8 @@ package main
 //   del.<s>     DeleteSheet            copy.<s>   NewSheet + CopySheet       ren.<s>  SetSheetName
 //   new         NewSheet + a cell      move.<s>   MoveSheet to the front     get.<s>  GetRows (logged)
 //   stream.<s>  NewStreamWriter on the existing sheet, three rows, Flush (rewrites the sheet)
+//   streambig.<s>  the same with ~18 MB of rows, so that the stream writer itself spills to a temp file
+//               (past StreamChunkSize; thorough tier only)
 //   save        WriteToBuffer: logged = sorted zip entry names (with multiplicity) + observation of the reopened file
 // Every script ends with save, File.Close and a listing of the private TMPDIR.
 //
@@ -35,9 +37,12 @@ type c12SheetRun struct {
 	status   string
 }
 
-func c12SheetScript(rng *Rng, n int, variant int) []string {
+func c12SheetScript(rng *Rng, n int, variant int, big bool) []string {
 	if n == 0 {
 		return nil
+	}
+	if big {
+		return []string{"get.0", "streambig.0", "save", "del.1", "save"}
 	}
 	firsts := []string{"del", "stream", "copy", "ren", "new", "move", "del", "stream"}
 	tok := func(k string) string {
@@ -146,6 +151,24 @@ func c12RunSheetScript(bk *c12Book, xmlL, sizeL int64, script []string) (res c12
 				sw.SetRow("A3", []interface{}{xl.Cell{Value: "styled"}, nil, "x"})
 				res.streamed[bk.sheets[a%len(names)].path] = true
 				add(fmt.Sprintf("%s: flush err=%v", tok, sw.Flush() != nil))
+			case "streambig":
+				sw, err := f.NewStreamWriter(name)
+				if err != nil {
+					add(tok + ": err")
+					return
+				}
+				filler := strings.Repeat("0123456789abcdef", 128) // 2 KiB
+				for r := 1; r <= 900; r++ {
+					row := make([]interface{}, 10)
+					for c := range row {
+						row[c] = fmt.Sprintf("%d.%d %s", r, c, filler)
+					}
+					cell, _ := xl.CoordinatesToCellName(1, r)
+					sw.SetRow(cell, row)
+				}
+				res.streamed[bk.sheets[a%len(names)].path] = true
+				spill := c12TmpCount() - base
+				add(fmt.Sprintf("%s: flush err=%v stream-spilled=%v", tok, sw.Flush() != nil, spill > len(xl.VerifC12Dump(f).Temp)))
 			case "save":
 				buf, err := f.WriteToBuffer()
 				if buf == nil || err != nil {
@@ -169,6 +192,9 @@ func c12RunSheetScript(bk *c12Book, xmlL, sizeL int64, script []string) (res c12
 				if g, _ := c12Open(data, 0, 0); g != nil {
 					obs = c12Observe(g)
 					g.Close()
+					if len(obs) > 1<<20 {
+						obs = fmt.Sprintf("digest %s of %d bytes", c12Digest([]byte(obs)), len(obs))
+					}
 				}
 				add("savezip: " + strings.Join(zn, ","))
 				add("saveobs: " + obs)
@@ -196,6 +222,11 @@ func c12SheetOracle(r *Run, bk *c12Book, xmlL, sizeL int64, script []string, ref
 		return
 	}
 	r.Stat("oracle:sheet-ops")
+	for _, e := range got.log {
+		if strings.Contains(e, "stream-spilled=true") {
+			r.Stat("sheetops:stream-writer-spilled-past-chunk-size")
+		}
+	}
 	if got.left != 0 {
 		r.Fail("tmp-left-after-close:sheet-ops", fmt.Sprintf("%d temp file(s) remain in TMPDIR after Close following sheet operations (book %s, limits %d/%d, script %s)", got.left, bk.id, xmlL, sizeL, strings.Join(script, ",")), 0, header)
 	}
